@@ -74,6 +74,13 @@ def extra_configs(tier):
                 "consumer": {"buffer_size": 130}, "processor": "async",
                 "script": [["start"], ["stop", {"delivered": 3}], ["restart", 3]], "menu": MENU_LIGHT,
                 "timeout_ms": 2000})
+    # graceful shutdown whose final commit is rejected, then the application starts the consumer again
+    out.append({"cluster": dict(CLUSTER, coordinator=2), "discovery": False, "log": LOGS["base1000"], "magic": 0,
+                "start": "earliest", "group": True,
+                "consumer": {"buffer_size": 75, "auto_commit_every_n": 0, "auto_commit_every_ms": 0},
+                "processor": "sync",
+                "script": [["start"], ["shutdown", {"delivered": 2}], ["restart", 1002, {"stopped": True}]],
+                "menu": dict(MENU_LIGHT, err={"8": [22, 25], "1": [6]}), "timeout_ms": 2000})
     return out
 
 
